@@ -772,7 +772,13 @@ func (w *writer) encodeCharset(vals []int) []byte {
 // encodeEncoding writes a custom encoding.  The glyphs that have a code
 // must be exactly GIDs 1..m for some m (a format restriction: formats 0 and
 // 1 assign codes to consecutive GIDs starting at 1).
-func (w *writer) encodeEncoding(sids []int) []byte {
+func (w *writer) encodeEncoding(sids []int) []byte { return w.encodeEncodingPrefix(sids, -1) }
+
+// encodeEncodingPrefix writes the encoding with glyphs 1..prefix in the main
+// table and every other code as a supplement (prefix < 0: all encoded glyphs
+// in the main table, or - sometimes, as an equivalent spelling - a drawn
+// shorter prefix).
+func (w *writer) encodeEncodingPrefix(sids []int, prefix int) []byte {
 	f := w.f
 	codes := map[int][]int{} // gid -> codes, ascending
 	maxGID := 0
@@ -788,9 +794,33 @@ func (w *writer) encodeEncoding(sids []int) []byte {
 			maxGID = gid
 		}
 	}
-	main := make([]int, maxGID+1)
 	type sup struct{ code, sid int }
 	var sups []sup
+	if prefix < 0 && maxGID > 1 && w.opt.Pick(8) == 7 {
+		// equivalent spelling: a shorter main table, the rest as supplements
+		if p := w.opt.Pick(maxGID + 1); func() int {
+			n := 0
+			for gid := 1; gid <= maxGID; gid++ {
+				if gid > p {
+					n += len(codes[gid])
+				} else if len(codes[gid]) > 1 {
+					n += len(codes[gid]) - 1
+				}
+			}
+			return n
+		}() <= 255 {
+			prefix = p
+		}
+	}
+	if prefix >= 0 && prefix < maxGID {
+		for gid := prefix + 1; gid <= maxGID; gid++ {
+			for _, c := range codes[gid] {
+				sups = append(sups, sup{c, sids[gid]})
+			}
+		}
+		maxGID = prefix
+	}
+	main := make([]int, maxGID+1)
 	for gid := 1; gid <= maxGID; gid++ {
 		cs := codes[gid]
 		if len(cs) == 0 {
@@ -846,12 +876,15 @@ func (w *writer) encodeEncoding(sids []int) []byte {
 		}
 		if n > 255 {
 			// too many ranges for a Card8: only format 0 can hold this
+			w.trace = w.trace[:len(w.trace)-1]
 			if maxGID > 255 {
-				panic("refcffwalk: encoding not representable")
+				// 256 glyphs in 256 ranges: neither table form holds them;
+				// glyph 256 goes to the supplemental codes (format 0 then fits)
+				w.opt.EncodingFormat = 0
+				return w.encodeEncodingPrefix(sids, 255)
 			}
 			w.opt.EncodingFormat = 0
-			w.trace = w.trace[:len(w.trace)-1]
-			return w.encodeEncoding(sids)
+			return w.encodeEncodingPrefix(sids, maxGID)
 		}
 		out[1] = byte(n)
 	}
